@@ -357,6 +357,71 @@ func copySet(h map[string]bool) map[string]bool {
 	return r
 }
 
+// derefOf: key of accCtx.bind for "the value LOADED from v is rooted in the cell" (v: a free variable of a closure that
+// captured, by reference, a local holding a reference into package-level state).  The variable itself is not
+// package-level state, so v alone is not bound (loads and stores of the variable are no accesses of the cell).
+type derefOf struct{ ssa.Value }
+
+func (d derefOf) Name() string { return "*" + d.Value.Name() }
+
+// onlyLoaded: every use of the address v (an Alloc, or the free variable of a closure that captured it) is a load, a
+// debug reference, or a capture by a closure in which the same holds; nstores counts the stores THROUGH v when
+// allowStore (the defining function of the Alloc), any other store makes the answer false
+func onlyLoaded(v ssa.Value, allowStore bool, nstores *int, depth int) bool {
+	refs := v.Referrers()
+	if refs == nil || depth > 4 {
+		return false
+	}
+	for _, r := range *refs {
+		switch x := r.(type) {
+		case *ssa.UnOp:
+			if x.Op != token.MUL || x.X != v {
+				return false
+			}
+		case *ssa.DebugRef:
+		case *ssa.Store:
+			if !allowStore || x.Addr != v || x.Val == v {
+				return false
+			}
+			*nstores++
+		case *ssa.MakeClosure:
+			fn, ok := x.Fn.(*ssa.Function)
+			if !ok {
+				return false
+			}
+			for i, b := range x.Bindings {
+				if b == v {
+					if i >= len(fn.FreeVars) || !onlyLoaded(fn.FreeVars[i], false, nstores, depth+1) {
+						return false
+					}
+				}
+			}
+		default:
+			return false
+		}
+	}
+	return true
+}
+
+// localCell: al is a local variable (a heap cell in go/ssa when a closure captures it) that is stored exactly once,
+// with a reference value, and otherwise only loaded (also inside the closures that capture it): every load yields
+// the stored value, so what is loaded is rooted where the stored value is  (mu := &g.M; defer func() { mu.Unlock() }())
+func (an *accAn) localCell(al *ssa.Alloc, c *accCtx, depth int) string {
+	n := 0
+	if !onlyLoaded(al, true, &n, 0) || n != 1 {
+		return ""
+	}
+	for _, r := range *al.Referrers() {
+		if st, ok := r.(*ssa.Store); ok && st.Addr == al {
+			if !isRefType(st.Val.Type()) {
+				return ""
+			}
+			return an.cellOf(st.Val, c, depth+1)
+		}
+	}
+	return ""
+}
+
 // cellOf: the cell an address or a loaded reference value belongs to ("" if not rooted in package-level state)
 func (an *accAn) cellOf(v ssa.Value, c *accCtx, depth int) string {
 	if depth > 12 || v == nil {
@@ -411,6 +476,12 @@ func (an *accAn) cellOf(v ssa.Value, c *accCtx, depth int) string {
 		if x.Op == token.MUL {
 			if !isRefType(x.Type()) {
 				return ""
+			}
+			if cell, ok := c.bind[derefOf{x.X}]; ok {
+				return cell
+			}
+			if al, ok := x.X.(*ssa.Alloc); ok {
+				return an.localCell(al, c, depth)
 			}
 			return an.cellOf(x.X, c, depth+1)
 		}
@@ -952,6 +1023,13 @@ func (an *accAn) bindClosure(v ssa.Value, fn *ssa.Function, c *accCtx, nc *accCt
 		if i < len(fn.FreeVars) {
 			if cell := an.cellOf(b, c, 0); cell != "" {
 				nc.bind[fn.FreeVars[i]] = cell
+			} else if al, ok := b.(*ssa.Alloc); ok {
+				// a local captured by reference that holds one reference into package-level state
+				if cell := an.localCell(al, c, 0); cell != "" {
+					nc.bind[derefOf{fn.FreeVars[i]}] = cell
+				}
+			} else if cell, ok := c.bind[derefOf{b}]; ok {
+				nc.bind[derefOf{fn.FreeVars[i]}] = cell // captured again by an inner closure
 			}
 		}
 	}
@@ -1030,12 +1108,41 @@ func (an *accAn) lockEffect(f *ssa.Function, bind map[ssa.Value]string, depth in
 		return a.top == b.top && a.killAll == b.killAll && heldList(a.gen) == heldList(b.gen) && setList(a.kill) == setList(b.kill)
 	}
 	deferred := map[string]bool{}
+	deferredAll := false // a deferred call that may release anything
 	for _, blk := range f.Blocks {
 		for _, ins := range blk.Instrs {
 			if d, ok := ins.(*ssa.Defer); ok {
-				if m, ok := lockMethod(d.Common()); ok && (m == "Unlock" || m == "RUnlock") && len(d.Common().Args) > 0 {
-					if cell := an.cellOf(d.Common().Args[0], c, 0); cell != "" {
-						deferred[cell] = true
+				dc := d.Common()
+				if m, ok := lockMethod(dc); ok {
+					if (m == "Unlock" || m == "RUnlock") && len(dc.Args) > 0 {
+						if cell := an.cellOf(dc.Args[0], c, 0); cell != "" {
+							deferred[cell] = true
+						}
+					}
+					continue
+				}
+				// defer func() { m.Unlock() }() / defer release(): what the deferred library function may release is (maybe)
+				// released when f returns; what it takes is not claimed to be held
+				if sc := dc.StaticCallee(); sc != nil && an.libPkgs[sc.Pkg] != "" && len(sc.Blocks) > 0 {
+					nc := &accCtx{bind: map[ssa.Value]string{}}
+					for i, a := range dc.Args {
+						if i < len(sc.Params) {
+							if cell := an.cellOf(a, c, 0); cell != "" {
+								nc.bind[sc.Params[i]] = cell
+							}
+						}
+					}
+					an.bindClosure(dc.Value, sc, c, nc)
+					e := an.lockEffect(sc, nc.bind, depth+1)
+					if e.killAll {
+						deferredAll = true
+					}
+					for k := range e.kill {
+						deferred[k] = true
+					}
+				} else if dc.StaticCallee() == nil && !dc.IsInvoke() {
+					if _, isBuiltin := dc.Value.(*ssa.Builtin); !isBuiltin {
+						deferredAll = true
 					}
 				}
 			}
@@ -1103,6 +1210,10 @@ func (an *accAn) lockEffect(f *ssa.Function, bind map[ssa.Value]string, depth in
 				}
 			case *ssa.Return:
 				r := cp(x)
+				if deferredAll {
+					r.killAll = true
+					r.gen = map[string]string{}
+				}
 				for cell := range deferred {
 					delete(r.gen, cell)
 					r.kill[cell] = true
